@@ -60,10 +60,20 @@ func (p *ParserPlanner) Process(ctx *shared.PlannerContext,
 			if entry.Err != nil {
 				return nil
 			}
-			var err error
-			entry.Labels, err = parser(entry.Message, &entry.Labels)
+			// a line that does not decode keeps its labels and stays in the result, as in LogQL (and as on the
+			// ClickHouse path, where JSONExtract yields nothing for it); it used to fail the whole request
+			extracted := make(map[string]string)
+			if _, err := parser(entry.Message, &extracted); err == nil {
+				if entry.Labels == nil {
+					entry.Labels = extracted
+				} else {
+					for k, v := range extracted {
+						entry.Labels[k] = v
+					}
+				}
+			}
 			entry.Fingerprint = fingerprint(entry.Labels)
-			return err
+			return nil
 		},
 		OnAfterEntriesSlice: func(entries []shared.LogEntry, c chan []shared.LogEntry) error {
 			c <- entries
